@@ -203,7 +203,7 @@ CHECKS["C11"] = dict(
 CHECKS["C19"] = dict(
     level="model_checking", engine="E-BLK",
     technique="explicit-state model checking of the implementation under AddressSanitizer: every (content, way of copying, fate of the source, follow-up operation sequence) combination, differential against a freshly built block",
-    level_text="Contents {empty, one full QR, QR+AEC+MM with RR lists, 300 distinct values per table, tables holding duplicates, table entries without any record, statistics only} x ways {copy ctor, move ctor, copy assign, move assign, the four CdnsBlockRead variants, block = reader.read_block()} x fate of the source {kept, values added, cleared, cleared and refilled with different values, destroyed} x every sequence of follow-up operations up to the depth bound from {re-add an existing value (9 tables), add new values, get, generic add sharing values, repeated address event, serialise, read_generic_*}: every observation (indices, sizes, serialised bytes, generic records) must equal that of the same operations on a freshly built block, the source must not be affected by operations on the copy, and AddressSanitizer must stay silent (forked workers attribute a use-after-free to the exact case).",
+    level_text="Contents {empty, one full QR, QR+AEC+MM with RR lists, 300 distinct values per table, tables holding duplicates, table entries without any record, statistics only} x ways {copy ctor, move ctor, copy assign, move assign, the four CdnsBlockRead variants, block = reader.read_block(); copies whose source is kept are also assigned to themselves} x fate of the source {kept, values added, cleared, cleared and refilled with different values, destroyed} x every sequence of follow-up operations up to the depth bound from {re-add an existing value (9 tables), add new values, get, generic add sharing values, repeated address event, serialise, read_generic_*}: every observation (indices, sizes, serialised bytes, generic records) must equal that of the same operations on a freshly built block, the source must not be affected by operations on the copy, and AddressSanitizer must stay silent (forked workers attribute a use-after-free to the exact case).",
     level_note="Trusted: differential oracle (fresh block built / read the same way), ASan. Quarantine 32 MiB keeps freed source blocks poisoned while the copy is exercised.",
     stages=[dict(harness="blk", variant="asan", args=["--mode", "copy"])],
     rule="product enumerated exhaustively; follow-up sequences by stateless DFS; all distinct and non-trivial",
